@@ -76,4 +76,8 @@ theorem src_whiteners_get_dimension_names :
     Gen.crossWhitener1.lookup "feature_name" = some "feature_name[0]" ∧ Gen.crossWhitener2.lookup "feature_name" = some "feature_name[1]" := by
   decide
 
+/-- source obligation: POP's PCA step is told the model's dimension names -/
+theorem src_pop_pca_gets_dimension_names :
+    Gen.popPCA.lookup "sample_name" = some "sample_name" ∧ Gen.popPCA.lookup "feature_name" = some "feature_name" := by decide
+
 end C07
